@@ -6,7 +6,7 @@ CONSTANTS
   Tokens = {"t1","t2"}
   AppStates = {"s1"}
   NodeIds = {"N1"}
-  Enabled = {"Authorize","Token","Remove","Fetch","Tamper","Regw"}
+  Enabled = {"Authorize","Token","Remove","Fetch","Tamper"}
   MaxGen = 2
   CfgSW = TRUE
   CfgNidl = FALSE
